@@ -262,6 +262,137 @@ func runC35(c *core.Ctx) {
 			"adjustProtocolSustainabilityRewards can return without adding a non-negative dust to the protocol reward ("+c.P.PathString(path)+")")
 	}
 	c.Floor("C35/dust-goes-to-protocol", 4)
+	c35CorrectedTotal(c)
+	c35DelegationTest(c)
+}
+
+// c35CorrectedTotal: ComputeEndOfEpochEconomics corrects the total to distribute on one branch (fees
+// above inflation). Everything computed after that point uses the corrected version: no value that
+// was derived from the uncorrected total before the branch is used after the merge, except through
+// a variable corrected on the same branch. Mixing versions makes the amount handed to the reward
+// creator differ from total - fees - protocol share, so the rewards no longer add up to the total.
+func c35CorrectedTotal(c *core.Ctx) {
+	fn := anchorM(c, "epochStart/metachain", "economics", "ComputeEndOfEpochEconomics")
+	if fn == nil {
+		return
+	}
+	c.Analysed(fname(fn))
+	n := 0
+	for _, b := range fn.Blocks {
+		if core.InnermostLoop(fn, b) != nil && core.InnermostLoop(fn, b).Header == b {
+			continue
+		}
+		for _, in := range b.Instrs {
+			ph, ok := in.(*ssa.Phi)
+			if !ok {
+				break
+			}
+			if !strings.HasSuffix(ph.Type().String(), "math/big.Int") {
+				continue
+			}
+			// the uncorrected version: an edge value defined before the branch (its block dominates the merge)
+			var v0 ssa.Value
+			for _, e := range ph.Edges {
+				if ei, isI := e.(ssa.Instruction); isI && ei.Block() != b && ei.Block().Dominates(b) {
+					if _, isPhi := e.(*ssa.Phi); !isPhi {
+						v0 = e
+					}
+				}
+			}
+			if v0 == nil {
+				continue
+			}
+			n++
+			// uses after the merge that reach v0 without going through a phi of the merge block
+			stale := ""
+			var reaches func(x ssa.Value, d int, seen map[ssa.Value]bool) bool
+			reaches = func(x ssa.Value, d int, seen map[ssa.Value]bool) bool {
+				if x == nil || seen[x] || d > 10 {
+					return false
+				}
+				seen[x] = true
+				if x == v0 {
+					return true
+				}
+				if p2, isPhi := x.(*ssa.Phi); isPhi && p2.Block() == b {
+					return false
+				}
+				xi, isI := x.(ssa.Instruction)
+				if !isI {
+					return false
+				}
+				for _, op := range xi.Operands(nil) {
+					if op != nil && reaches(*op, d+1, seen) {
+						return true
+					}
+				}
+				return false
+			}
+			for _, b2 := range fn.Blocks {
+				if b2 != b && !b.Dominates(b2) {
+					continue
+				}
+				for _, in2 := range b2.Instrs {
+					if _, isPhi := in2.(*ssa.Phi); isPhi {
+						continue
+					}
+					for _, op := range in2.Operands(nil) {
+						if op == nil || *op == nil {
+							continue
+						}
+						if reaches(*op, 0, map[ssa.Value]bool{}) {
+							stale = c.P.Pos(in2.Pos()) + " uses " + core.ExprKey(*op)
+						}
+					}
+				}
+			}
+			c.Check(stale == "", "C35/economics-use-the-corrected-total", fmt.Sprintf("ComputeEndOfEpochEconomics/%s", ph.Comment), ph.Pos(),
+				"after the branch that corrects "+ph.Comment+", nothing derived from its uncorrected value is used",
+				"after "+ph.Comment+" is corrected on one branch, "+stale+", which was derived from the uncorrected value: the amount left for block rewards is computed from the smaller total while the total to distribute uses the corrected one - the created rewards no longer add up")
+		}
+	}
+	c.Floor("C35/economics-use-the-corrected-total", 1)
+}
+
+// c35DelegationTest: an address counts as a system delegation contract only if the marker value
+// stored under DelegationSystemSCKey is non-empty.
+func c35DelegationTest(c *core.Ctx) {
+	fn := anchorM(c, "epochStart/metachain", "baseRewardsCreator", "isSystemDelegationSC")
+	if fn == nil {
+		return
+	}
+	c.Analysed(fname(fn))
+	ok, n := true, 0
+	for _, r := range core.Returns(fn) {
+		v := core.RetOperand(r, 0)
+		if b, isC := core.ConstBool(v); isC && !b {
+			continue
+		}
+		n++
+		// the value returned is (or lies behind) len(stored value) > 0
+		nonEmpty := false
+		check := func(f core.Fact) {
+			for _, side := range []string{f.A, f.B} {
+				if strings.HasPrefix(side, "len(") && strings.Contains(side, "RetrieveValue") {
+					if lb, has := f.LowerBound(side); has && lb >= 1 {
+						nonEmpty = true
+					}
+				}
+			}
+		}
+		for _, f := range core.FactsAt(r.Block()) {
+			check(f)
+		}
+		if bo, isBo := v.(*ssa.BinOp); isBo {
+			check(core.FactOf(core.Cond{V: bo, Taken: true}))
+		}
+		if !nonEmpty {
+			ok = false
+		}
+	}
+	c.Check(ok && n > 0, "C35/delegation-test-requires-marker", "baseRewardsCreator.isSystemDelegationSC", fn.Pos(),
+		"`true` only when the value stored under the delegation marker key is non-empty",
+		"an address can be classified as a delegation contract without a non-empty marker value (a missing key reads as (nil, nil)): any metachain account with storage receives reward transactions")
 }
 
 func firstBodyBlock(l *core.Loop) *ssa.BasicBlock {
